@@ -81,3 +81,34 @@ Fixpoint pick (hdrs : list (bytes * bytes)) : option Z :=
       then match parse v with Some d => Some d | None => pick rest end
       else pick rest
   end.
+
+(* ---- the whole transfer: caller context -> request header -> handler context ----
+   Both RPC kinds go through the same two functions:
+     client: headersFromContext(ctx) is called by invoke (client.go l.108, unary)
+             and by newStream (l.252, all streaming kinds);
+     server: contextFromHeaders(clientCtx, header) is called by processUnaryRpc
+             (server.go l.321, on a worker) and by processStreamingRpc (l.498,
+             on the read loop, for the opening envelope).
+   headersFromContext emits the outgoing metadata first (ToKeyValue; [md_kvs]
+   stands for its output) and then, if the context has a deadline, the pair
+   ("GRPC-Timeout", encode (deadline - now)). contextFromHeaders makes
+   context.WithTimeout(ctx, d) for the first header that [pick] accepts: the
+   handler's deadline is its own now + d; Serve's context has no deadline. *)
+Inductive rkind := KUnary | KStream.
+
+Definition client_timeout_key : bytes := B"GRPC-Timeout".
+
+Definition client_headers (md_kvs : list (bytes * bytes)) (remaining : option Z) : list (bytes * bytes) :=
+  md_kvs ++ match remaining with Some r => [(client_timeout_key, encode r)] | None => [] end.
+
+Definition server_deadline (t1 : Z) (hdrs : list (bytes * bytes)) : option Z :=
+  match pick hdrs with Some d => Some (t1 + d) | None => None end.
+
+(* t0 = the caller's clock when the header is built, t1 = the server's clock
+   when the context is made, [deadline] = the caller's absolute deadline *)
+Definition sys_deadline (k : rkind) (t0 t1 : Z) (md_kvs : list (bytes * bytes)) (deadline : option Z) : option Z :=
+  let remaining := match deadline with Some dl => Some (dl - t0) | None => None end in
+  match k with
+  | KUnary => server_deadline t1 (client_headers md_kvs remaining)    (* invoke ... processUnaryRpc *)
+  | KStream => server_deadline t1 (client_headers md_kvs remaining)   (* newStream ... processStreamingRpc *)
+  end.
